@@ -70,7 +70,8 @@ func concOp(name string, g int) string {
 	case "encShared":
 		x, e1 := concShared.Xml()
 		j, e2 := concShared.Json()
-		xi, e3 := concShared.XmlIndent("", " ")
+		// (every goroutine indents with its OWN unit: tabs, one blank, two blanks)
+		xi, e3 := concShared.XmlIndent("", []string{" ", "\t", "  "}[g%3])
 		sx, e4 := concSharedSq.Xml()
 		return fmt.Sprint(string(x), e1, string(j), e2, string(xi), e3, string(sx), e4)
 	case "qryShared":
@@ -125,8 +126,8 @@ func concOp(name string, g int) string {
 	case "encPriv":
 		m := mxj.Map{"p": map[string]interface{}{"-g": g, "q": []interface{}{g, "x", map[string]interface{}{"r": g}}, "#text": fmt.Sprint("t<", g)}}
 		x, e1 := m.Xml()
-		xi, e2 := m.XmlIndent("", "  ")
-		j, e3 := m.JsonIndent("", " ")
+		xi, e2 := m.XmlIndent([]string{"", "\t"}[g%2], []string{"  ", "\t", " "}[g%3])
+		j, e3 := m.JsonIndent("", []string{" ", "\t", "  "}[g%3])
 		// the Raw writer forms hand out bytes as well: they are held while further encodings take place
 		var w1, w2 bytes.Buffer
 		raw, e4 := m.JsonWriterRaw(&w1)
@@ -519,7 +520,7 @@ func exoticMap() mxj.Map {
 	for i := range wide {
 		wide[i] = map[string]interface{}{"k": float64(i)}
 	}
-	return mxj.Map{"wide": wide, "sq": map[string]interface{}{"r": map[string]interface{}{"#attr": map[string]interface{}{"x": sq("1", 0), "y": sq("2", 1)}, "b": sq("1", 0), "c": sq("2", 1)}},
+	return mxj.Map{"inf": []interface{}{math.Inf(1), map[string]interface{}{"k": math.Inf(-1)}, "s"}, "wide": wide, "sq": map[string]interface{}{"r": map[string]interface{}{"#attr": map[string]interface{}{"x": sq("1", 0), "y": sq("2", 1)}, "b": sq("1", 0), "c": sq("2", 1)}},
 		"doc": map[string]interface{}{"by": bs,
 			"-id": 7, "i64": int64(-2), "u64": uint64(3), "n": json.Number("1.50"), "f32like": 2.5,
 			"ss": []string{"a", "b<"}, "lm": []map[string]interface{}{{"k": 1}, {"k": "v", "-a": true}},
